@@ -148,12 +148,18 @@ def delta(q, sym):
     if sym == "retire":
         if d["sat"] is not True:
             q = _flag(q, "C06.c: the expectation leaves its sequences although it is not saturated")
+        if d["acted"]:
+            q = _flag(q, "C06.c: a saturated expectation leaves its sequences only after user code (a side effect) has "
+                         "run: when that code throws it stays registered")
         return _set(q, retire=True)
     if sym == "unlink":
         if d["sat"] is not True:
             q = _flag(q, "C03.d: the expectation leaves the active list although it is not saturated")
         if d["push"]:
             q = _flag(q, "C03.d: appended to the saturated list before being unlinked from the active list")
+        if d["acted"]:
+            q = _flag(q, "C03.d: a saturated expectation leaves the active list only after user code (a side effect) "
+                         "has run: when that code throws it stays a candidate")
         return _set(q, unlink=True)
     if sym == "push_sat":
         if d["sat"] is not True:
